@@ -301,6 +301,7 @@ Definition process_downstream_ack (u : suser) (dn_seq dn_frag : Z) : suser :=
   let o := u_out u in
   if p_len o =? 0 then u else
   if negb ((Z.of_N (p_seqno o) =? dn_seq)%Z && (p_fragment o =? dn_frag)%Z) then u else
+  if p_sentlen o =? 0 then u else          (* this fragment has not been sent yet: stale ack *)
   let o1 := o <| p_offset := p_offset o + p_sentlen o |> <| p_sentlen := 0 |>
               <| p_fragment := schar_wrap (p_fragment o + 1) |> in
   let u1 := u <| u_out := o1 |> <| u_resent := 0 |> in
